@@ -474,12 +474,44 @@ def run(ctx):
               'terminal file names do not override the configuration file',
               ctx.where(pm, fn))
     p1 = find(f"_p_ = {T}.pop('path')", fn)
-    ok = len(p1) == 1 and has(
-        f"if {p1[0][1]['_p_']} is None:\n    {p1[0][1]['_p_']} = "
-        "_all_.pop('path', '.')", fn)
+    ok = len(p1) == 1
+    if ok:
+        P = p1[0][1]['_p_']
+        ok = has(f"if {P} is None:\n    {P} = _all_.pop('path', '.')", fn)
+        if not ok:
+            for n_, b_ in find(f"if {P} is None:\n    {P} = _c_", fn):
+                if isinstance(b_['_c_'], str) and has(
+                        f"{b_['_c_']} = _all_.pop('path', '.')", fn):
+                    ok = True
     ctx.check('C18.Q4.precedence', '[files] path', ok,
               'terminal --path does not override the configuration file',
               ctx.where(pm, fn))
+    # Q4c: an option given on the terminal must still consume its
+    # configuration twin, else the twin is left in the section remainder and
+    # the run is rejected as "unexpected parameter"
+    tvars = {T}
+    for n_, b_ in find(f'_v_ = {T}.pop(__)', fn) + find(f'_v_ = {T}[__]', fn):
+        if isinstance(b_['_v_'], str):
+            tvars.add(b_['_v_'])
+    nq4 = 0
+    for c in ast.walk(fn):
+        if not (isinstance(c, ast.Call) and isinstance(c.func, ast.Attribute)
+                and c.func.attr == 'pop' and isinstance(c.func.value, ast.Name)
+                and c.func.value.id in W.remainders and c.args):
+            continue
+        nq4 += 1
+        bad = [ast.unparse(t) for t, _pol in au.guards_of(c, fn)
+               if {x.id for x in ast.walk(t) if isinstance(x, ast.Name)}
+               & tvars]
+        ctx.check('C18.Q4.consumed',
+                  f'[{W.remainders[c.func.value.id]}] '
+                  f'{c.func.value.id}.pop({ast.unparse(c.args[0])})',
+                  not bad, 'the configuration key is only consumed when '
+                  f'`{bad[0] if bad else ""}`: given both in the file and on '
+                  'the terminal it stays in the remainder and the run is '
+                  'rejected instead of the terminal value taking precedence',
+                  ctx.where(pm, c))
+    ctx.need(nq4 >= 20, f'only {nq4} configuration-key extractions seen')
     # Q5
     for var, sec in sorted(W.remainders.items()):
         ctx.check('C18.Q5.unknown', f'[{sec}] remainder `{var}` raises',
